@@ -257,6 +257,45 @@ theorem C12_attribute_value (E : Env) (hT : TableWf E.T) (hK : avConstsOk E.K = 
   rw [C12_roundtrip E hT hK _ hwf hcl]
   simp [normInst, normSlots]
 
+/-- The extension-element form of serialisation is judged by the weaker checker `specRoundTripExt`
+    (object equality and second serialisation; no order): implied by `C12_model_meets_spec` for the model,
+    whose `serialise` is `_to_element_tree` — `element_to_extension_element` itself is NOT modelled. -/
+theorem C12_model_meets_spec_ext (E : Env) (hT : TableWf E.T) (hK : avConstsOk E.K = true) (i : Inst)
+    (hwf : treeWf E.T i = true) (hcl : wireClean E i = true) :
+    specRoundTripExt i (modelRoundTrip E i) = true := by
+  have h := C12_model_meets_spec E hT hK i hwf hcl
+  cases hm : modelRoundTrip E i with
+  | raised => rw [hm] at h; simp [specRoundTrip] at h
+  | obj o same tags =>
+    rw [hm] at h
+    simp only [specRoundTrip, Bool.and_eq_true] at h
+    simp only [specRoundTripExt, Bool.and_eq_true]
+    exact h.1
+
+/-! ## constructor defaults: the recorded ones and no others -/
+
+/-- the (class tag, attribute) pairs the known finding C12/constructor-default-attribute-restored-on-parse
+    was recorded for (hand-written; NOT regenerated) -/
+def recordedCtorDefaults : List (QName × Name) := [
+  -- shibmd.Scope regexp, shibmd.KeyAuthority VerifyDepth
+  (⟨some 0x175726e3a6d6163653a73686962626f6c6574683a6d657461646174613a312e30, 0x153636f7065⟩, 0x1726567657870),
+  (⟨some 0x175726e3a6d6163653a73686962626f6c6574683a6d657461646174613a312e30, 0x14b6579417574686f72697479⟩, 0x15665726966794465707468),
+  -- pefim.SPCertEnc / SPCertEncType VerifyDepth
+  (⟨some 0x175726e3a6e65743a6575737469783a6e616d65733a74633a504546494d3a302e303a617373657274696f6e, 0x1535043657274456e63⟩, 0x15665726966794465707468),
+  (⟨some 0x175726e3a6e65743a6575737469783a6e616d65733a74633a504546494d3a302e303a617373657274696f6e, 0x1535043657274456e6354797065⟩, 0x15665726966794465707468),
+  -- wsaddr.RelatesTo / RelatesToType RelationshipType
+  (⟨some 0x1687474703a2f2f7777772e77332e6f72672f323030352f30382f61646472657373696e67, 0x152656c61746573546f⟩, 0x152656c6174696f6e7368697054797065),
+  (⟨some 0x1687474703a2f2f7777772e77332e6f72672f323030352f30382f61646472657373696e67, 0x152656c61746573546f54797065⟩, 0x152656c6174696f6e7368697054797065),
+  -- wspol.PolicyReference DigestAlgorithm
+  (⟨some 0x1687474703a2f2f736368656d61732e786d6c736f61702e6f72672f77732f323030342f30392f706f6c696379, 0x1506f6c6963795265666572656e6365⟩, 0x1446967657374416c676f726974686d)]
+
+set_option maxRecDepth 100000 in
+/-- Every constructor default of the regenerated table (derived on every run by instantiating each class
+    without arguments) is one of the recorded pairs: a new default anywhere else breaks this obligation. -/
+theorem C12_ctor_defaults_recorded :
+    (ctorDefaultPairs Gen.ClassTable.classList).all (fun p => recordedCtorDefaults.contains p) = true := by
+  decide +kernel
+
 /-! ## the full statement, and why it does not hold of the code as it is -/
 
 /-- The property's first sentence at full strength: for EVERY instance of the instance space. -/
